@@ -2,22 +2,32 @@ import PeliteModel.Driver.Image
 import PeliteModel.Model.Pattern
 import PeliteModel.Spec.PatternSem
 import PeliteModel.Spec.PatternSemImpl
+import PeliteModel.Spec.PatternSemDoc
 /-! Driver handlers for C11 (semantic half): pattern STRING → parser model → interpreter model, next
 to the reference semantics `PatSem.denote` of the tree recovered by the reference reader.
 ```
 pat_ref <hex pattern string> <hex bytes> <cursor> <nsave> <32|64>   (model only: raw buffer, `ofRaw`)
 pat_sem <k> <hex pattern string> <cursor rva> <nsave>               (current image, `ofView`)
    -> ok <0|1> save=[..] ## spec=<0|1>:[..] impl=<0|1>:[..] hyp=<0|1> hypi=<0|1> wf=<0|1> frag=<0|1> same=<0|1>
+         doc=<0|1>:[..] docdiff=<0|1> run=<0|1>:[..] implok=<0|1>
    -> err <ParseErrorKind> <pos>
 ```
 `spec`: the documented answer; the list has `nsave` entries, `_` = slot not specified (never written by
-the successful path), empty on a mismatch.  `hyp=1`: the string is `render sty p` of a well-formed tree
-in the fragment of `Thm/C11.lean` (T2) and the image interface is coherent (mapped views; file views
-whose sections do not overlap; raw buffers).
+the successful path), empty on a mismatch.  `hyp=1`: the string belongs to the reference grammar (`readPat s = some p`:
+any documented spelling — mixed-case hex, leading-zero decimals, SP / TAB / LF / CR; `Thm/C11Grammar.lean`), `p` is a
+well-formed tree in the fragment of `Thm/C11.lean` (T2) and the image interface is coherent (mapped views; file views
+whose sections do not overlap; raw buffers).  `styled=1`: the string is moreover `render sty p` for one of the four
+uniform styles (the image T1 / T3 of `Thm/C11.lean` quantify over).
 `impl`: the answer of the second reference semantics `PatSem.denoteImpl` (`Spec/PatternSemImpl.lean`: the last
 alternative continues into what follows the `)`, a trailing `[a-b]` means `[a]`), same format as `spec`.
-`hypi=1`: the hypotheses of the UNCONDITIONAL theorem (`Thm/C11Impl.lean`, T2'): the string is `render sty p` of
-a well-formed tree and the image interface is coherent — no fragment condition. -/
+`hypi=1`: the hypotheses of the UNCONDITIONAL theorem (`Thm/C11Grammar.lean:C11_pattern_string_semantics_grammar` =
+T2' of `Thm/C11Impl.lean` for every string of the reference grammar): `readPat s = some p`, `p` well formed and the
+image interface coherent — no fragment condition.
+`doc`: the answer of `PatSem.denoteDoc` (`Spec/PatternSemDoc.lean`: `denoteImpl` with the DOCUMENTED, inclusive upper
+bound of every `[a-b]`), same format; `docdiff=1` when it differs from `impl=` (then the input needs exactly `b`
+skipped bytes at some `[a-b]`: the known deviation `Thm/C11Doc.lean:C11_doc_upper_bound_differs`).
+`run`: the interpreter model's own answer in the format of `impl=` with every slot printed; `implok=1`: it agrees
+with `impl=` (verdict and every specified slot) — what `Thm/C11Impl.lean` proves under `hypi=1`. -/
 namespace Pelite.Driver
 open Pelite.Proto Pelite.Pe Pelite.Pattern Pelite.Exec Pelite.PatSem
 
@@ -38,20 +48,35 @@ def answer (S : ScanI) (coherent : Bool) (pat : List UInt8) (cursor nsave : Nat)
     let ans := match Exec.run S atoms cursor (Array.replicate nsave 0) with
       | .ok (b, s) => s!"ok {b01 b} save={fmtSave s}"
       | o => outStr (fun _ => "") o
-    match readStyled pat with
-    | none => s!"{ans} ## spec=- impl=- hyp=0 hypi=0 wf=0 frag=0"
-    | some (_, p) =>
+    -- the tree of the string under the reference grammar: ANY documented spelling (`Thm/C11Grammar.lean`:
+    -- `C11_grammar_covered`, `C11_pattern_string_semantics_grammar` hold for every `readPat s = some p`)
+    match readPat pat with
+    | none => s!"{ans} ## spec=- impl=- hyp=0 hypi=0 wf=0 frag=0 same=0 doc=- docdiff=0 run=- implok=0 styled=0"
+    | some p =>
       let spec := match denote S p cursor with
         | some (_, w) => s!"1:{fmtCaps w nsave}"
         | none => "0:[]"
       let impl := match denoteImpl S p cursor with
         | some (_, w) => s!"1:{fmtCaps w nsave}"
         | none => "0:[]"
+      let doc := match denoteDoc S p cursor with
+        | some (_, w) => s!"1:{fmtCaps w nsave}"
+        | none => "0:[]"
+      let docdiff := doc != impl
+      -- the interpreter model's own answer, and whether it is the one `denoteImpl` specifies
+      let (runTxt, implok) := match Exec.run S atoms cursor (Array.replicate nsave 0) with
+        | .ok (b, s) =>
+          (s!"{b01 b}:{if b then fmtSave s else "[]"}",
+           match denoteImpl S p cursor with
+           | some (_, w) => b && s.size == nsave &&
+               (List.range nsave).all fun i => match w.get i with | some v => s[i]? == some v | none => true
+           | none => !b)
+        | _ => ("-", false)
       let wf := WF p
       let frag := InFragment p
       let hypi := wf && coherent && decide (cursor < 4294967296) && decide (S.mem.size < 4294967296)
       let hyp := hypi && frag
-      s!"{ans} ## spec={spec} impl={impl} hyp={b01 hyp} hypi={b01 hypi} wf={b01 wf} frag={b01 frag} same={b01 (decide (compile p = atoms))}"
+      s!"{ans} ## spec={spec} impl={impl} hyp={b01 hyp} hypi={b01 hypi} wf={b01 wf} frag={b01 frag} same={b01 (decide (compile p = atoms))} doc={doc} docdiff={b01 docdiff} run={runTxt} implok={b01 implok} styled={b01 (readStyled pat).isSome}"
 
 end PatSemD
 open PatSemD
